@@ -124,6 +124,17 @@ def run(check):
             opts["triggers"] = trig
         case, sem = runfam.build_case("c13-%05d" % i, g, **opts)
         items.append((case, sem, g))
+    # very large parallelism values (the schema has no maximum; people write them to say "no limit"), as constants and from the input
+    for i, par in enumerate([1 << 31, 1 << 40, 1 << 50, 1 << 62, (1 << 63) - 1] * check.pick(1, 3)):
+        rng = random.Random(derive_seed(check.seed, "c13-hugepar", i))
+        nn = rng.choice([1, 3, 5])
+        sub = gen.sub_program("sub.yaml", 1)
+        fe = Step("loop", "foreach", sub=sub, items=Expr(In("items")), parallelism=par if i % 2 == 0 else Expr(In("n")))
+        prog = Program([fe], {"success": {"d": Expr(Ref("loop", "outputs", "success", "data"))}, "failed": {"e": Expr(Ref("loop", "failed", "error"))}}, gen.BASE_INPUT)
+        g = {"program": prog, "scripts": gen.make_scripts([fe], {}), "input": {"tag": "T1", "n": par, "items": [{"tag": "i%d" % k} for k in range(nn)]}, "shape": "loop n=%d par=2^%d" % (nn, par.bit_length() - (0 if par & (par - 1) else 1)),
+             "outcome": {}, "n": nn, "par": nn, "first_src": "sub_w0", "nested": False}
+        case, sem = runfam.build_case("c13-hp%04d" % i, g)
+        items.append((case, sem, g))
     # cancellation while the loop is in progress: every item hangs until cancelled
     for i in range(check.pick(30, 200)):
         rng = random.Random(derive_seed(check.seed, "c13-cancel", i))
